@@ -76,6 +76,14 @@ Example C15_interp_cyclic_example :
   interpolate_string Pipeline_proofs.cyc_table [112;36;123;97;125;113] = Ok ([112;120;36;123;97;125;121;113], false).
 Proof. exact Pipeline_proofs.cyclic_example. Qed.
 
+(* R10: a property defined with the empty value IS defined - its placeholder is replaced by nothing and
+   the flag stays true, in the model and in the specification alike; an undefined one stays put *)
+Example C15_empty_value_is_defined :
+  interpolate_string [([99;108], [])] [50;36;123;99;108;125;45] = Ok ([50;45], true) /\
+  MavenModelSpec.resolve [([99;108], [])] [50;36;123;99;108;125;45] = ([50;45], true) /\
+  interpolate_string [] [50;36;123;99;108;125;45] = Ok ([50;36;123;99;108;125;45], false).
+Proof. exact Pipeline_proofs.empty_value_is_defined. Qed.
+
 (* ================= refinement of Maven's rules, piece by piece ================= *)
 
 (* R5 (with R2, R3): looking a name up in the map the Go code builds after merging the
@@ -200,6 +208,11 @@ Print Assumptions C15_full_refuted.
    OS-activated profile; a BOM with a parent, a nested import and a property-valued version). *)
 Example C15_refines_example_inherit : Pipeline_proofs.agree w_ex_inherit_jdk_table w_ex_inherit_repo w_ex_inherit_root.
 Proof. exact Pipeline_proofs.w_ex_inherit_agree. Qed.
+
+(* a child overrides the classifier property of its parent with an empty element: the dependency
+   loses the classifier and is managed by the parent's entry written with the same placeholder *)
+Example C15_refines_example_empty_property : Pipeline_proofs.agree w_ex_empty_jdk_table w_ex_empty_repo w_ex_empty_root.
+Proof. exact Pipeline_proofs.w_ex_empty_agree. Qed.
 
 Example C15_refines_example_import : Pipeline_proofs.agree w_ex_import_jdk_table w_ex_import_repo w_ex_import_root.
 Proof. exact Pipeline_proofs.w_ex_import_agree. Qed.
